@@ -116,6 +116,19 @@ var progress int64 // bumped by the batch loop between phases (watchdog)
 
 var curRunVar int
 
+// what the watchdog needs to file the race reports of a run that never ends
+var (
+	stuckSpec     *Spec
+	stuckRaceBase int
+	stuckRL       *raceLog
+)
+
+//go:norace
+func setStuck(s *Spec, base int, rl *raceLog) { stuckSpec, stuckRaceBase, stuckRL = s, base, rl }
+
+//go:norace
+func getStuck() (*Spec, int, *raceLog) { return stuckSpec, stuckRaceBase, stuckRL }
+
 //go:norace
 func setCurRun(r int) { curRunVar = r }
 
@@ -138,6 +151,21 @@ func watchdog(dir string, worker int, limit time.Duration) {
 				"worker": worker, "run": getCurRun(), "steps": s,
 			})
 			fmt.Fprintf(os.Stderr, "simworker %d: WATCHDOG no progress for %v in run %d\n", worker, limit, getCurRun())
+			// race reports of the stuck run must not be lost with the process
+			if sp, base, rl := getStuck(); sp != nil && rl != nil && raceErrorCount() > base {
+				var real []Violation
+				for _, v := range rl.collect() {
+					if v.Class == "race" {
+						v.Detail += " (reported in a run that afterwards made no progress and was abandoned)"
+						real = append(real, v)
+					}
+				}
+				if len(real) > 0 {
+					rf := &ReplayFile{Property: "C16", Toolchain: toolchain(), Controlled: !sp.Free, Violations: real, Spec: *sp,
+						Note: "the run did not complete (watchdog); the race reports above were produced before it stopped making progress"}
+					_ = writeJSONFile(filepath.Join(dir, fmt.Sprintf("viol-%d-%d.json", worker, getCurRun())), rf)
+				}
+			}
 			os.Exit(3)
 		}
 	}
@@ -256,6 +284,7 @@ func cmdBatch(args []string) int {
 		t0 := time.Now()
 		spec, rng, fset := genSpec(*seed, *worker, run, *tier)
 		spec.Free = *free
+		setStuck(spec, rl.errors(), rl)
 		rr := runSpec(spec, func(solo int64) { finalizeSchedule(spec, rng, fset, solo) }, rl)
 		progressBump()
 		if *auditEvery > 0 && (run%*auditEvery == 0 || (spec.Siblings && run%5 == 0)) && len(rr.Violations) == 0 && !spec.Free {
